@@ -1,6 +1,7 @@
 """Implementation runner for the identity-tree cases (bulk edits once per distinct object, reads per
 position, duration setter).  Trees: (l id) | (s id kids...) | (p id kids...): equal ids = one object."""
 import sys
+from fractions import Fraction
 import os
 import logging
 
@@ -71,11 +72,19 @@ def ticks(d):
     return round(x)
 
 
+class Pitches(tuple):
+    """a tuple-valued parameter (mutwo's pitch_list is one): one VALUE, not a nested level of the event tree"""
+
+
 def sval(v):
+    if isinstance(v, Pitches):
+        return v[0]
     return "none" if v is None else v
 
 
 def snest(t):
+    if isinstance(t, Pitches):
+        return t[0]
     if isinstance(t, tuple):
         return ["t"] + [snest(x) for x in t]
     return sval(t)
@@ -297,12 +306,15 @@ def run(case):
             def f(old, _g=g):
                 calls.append(1)
                 return _g(old)
-            if case[3][0] == "const" and int(case[3][1]) % 2 == 0:
-                t.set_parameter("pitch", int(case[3][1]), set_unassigned_parameter=su)   # a plain value instead of a function
+            kw = {} if su else {"set_unassigned_parameter": False}      # True is the documented default: not passed
+            plain = case[3][0] == "const" and int(case[3][1]) % 2 == 0
+            if plain:
+                t.set_parameter("pitch", int(case[3][1]), **kw)   # a plain value instead of a function
             else:
-                t.set_parameter("pitch", f, set_unassigned_parameter=su)
+                t.set_parameter("pitch", f, **kw)
             ls = {o.oid: o for o in leaves(t)}
-            return ["ok"] + [[i, sval(getattr(ls[i], "pitch", None))] for i in sorted(ls)]
+            out = ["ok"] + [[i, sval(getattr(ls[i], "pitch", None))] for i in sorted(ls)]
+            return out if plain else out + [["calls", len(calls)]]
         if k == "mutp":
             # the same traversal through mutate_parameter with mutable values
             for i, v in case[4]:
@@ -314,10 +326,17 @@ def run(case):
             ls = {o.oid: o for o in leaves(t)}
             return ["ok"] + [[i, sval(getattr(ls[i], "pitch", Box(None)).v)] for i in sorted(ls)]
         if k == "getp":
-            heap_apply(memo, case[4], "pitch", int)
+            # every third read case (decided by the case text) stores tuple-valued parameters
+            tuples = sum(map(ord, sx.show(case))) % 3 == 0
+            heap_apply(memo, case[4], "pitch", (lambda v: Pitches((int(v), int(v) + 100))) if tuples else int)
             flat = case[2] in ("1", "true")
             filt = case[3] in ("1", "true")
-            r = t.get_parameter("pitch", flat=flat, filter_undefined=filt)
+            kw = {}
+            if flat:
+                kw["flat"] = True                       # False / False are the documented defaults: not passed
+            if filt:
+                kw["filter_undefined"] = True
+            r = t.get_parameter("pitch", **kw)
             return ["ok"] + [snest(x) for x in r]
         if k == "setdur":
             # leaves of equal length may share ONE Duration object (a note value defined once and used for many notes):
@@ -331,7 +350,10 @@ def run(case):
                     else:
                         o.duration = int(v) / TICK
             before = ticks(t.duration)
-            t.duration = int(case[2]) / TICK
+            n = int(case[2])
+            kind = (n // 7) % 5 if before != 0 else 0     # (the zero-duration branch of the setter is outside C16)
+            t.duration = (n / TICK if kind < 2 else Fraction(n, TICK) if kind == 2 else f"{n}/{TICK}" if kind == 3
+                          else cp.DirectDuration(n / TICK))          # the target in every kind of Duration.Type
             ls = {o.oid: o for o in leaves(t)}
             return ["ok", ticks(t.duration)] + [[i, ticks(ls[i].duration)] for i in sorted(ls)]
     except Exception as e:  # noqa
